@@ -125,6 +125,7 @@ func (c *Ctx) initFactEngine() {
 	valueByName = map[string]ssa.Value{}
 	fiByFn = map[*ssa.Function]*funcInfo{}
 	computeModSets(ssautil.AllFunctions(c.prog))
+	c.establishSlotInvariants(c.prop == "C01")
 }
 
 func runC01(c *Ctx) {
